@@ -744,3 +744,41 @@ func genSeeds() []seed {
 	}
 	return out
 }
+
+// ftypBrands: every brand the sniffer or the box reader names, and two it does not.
+var ftypBrands = []string{"crx ", "heic", "heix", "mif1", "msf1", "hevc", "avif", "miaf", "avis", "MiHE", "isom", "zzzz"}
+
+var brandSeedCache []seed
+
+// brandSeeds: file starts made of an ftyp box with every combination of major brand and two
+// compatible brands (the positions the sniffer looks at, 8, 16 and 20), declared with 24 and
+// 28 bytes, alone (the stream ends with the sniffer's window) and followed by the start of a meta box.
+func brandSeeds() []seed {
+	if brandSeedCache != nil {
+		return brandSeedCache
+	}
+	var out []seed
+	for _, major := range ftypBrands {
+		for _, c1 := range ftypBrands {
+			for _, c2 := range ftypBrands {
+				for _, size := range []int{24, 28} {
+					for tail := 0; tail < 2; tail++ {
+						b := []byte{0, 0, 0, byte(size)}
+						b = append(b, "ftyp"+major+"\x00\x00\x00\x00"+c1+c2...)
+						if size == 28 {
+							b = append(b, "heic"...)
+						}
+						if tail == 1 {
+							b = append(b, "\x00\x00\x00\x0cmeta\x00\x00\x00\x00"...)
+						} else {
+							b = b[:24:24]
+						}
+						out = append(out, seed{name: fmt.Sprintf("ftyp(%d) %q/%q/%q tail %d", size, major, c1, c2, tail), kind: "heif", doc: &gen.Doc{B: b}, gen: true})
+					}
+				}
+			}
+		}
+	}
+	brandSeedCache = out
+	return out
+}
